@@ -468,7 +468,7 @@ var genMetaText = rapid.Custom(func(t *rapid.T) string {
 	return s
 })
 
-var exoticSyms = []string{"MajorSeventh", "DominantSeventh", "+", "(b9)", "ø", "Δ7", "m]x", "{x}", "x,y", "7#9", "b5", "#11", "]", "o7", "R", "C", "}", ",", "♭9", "é", "13", "007", "１", "٢x", "m৩"}
+var exoticSyms = []string{"MajorSeventh", "DominantSeventh", "+", "(b9)", "ø", "Δ7", "m]x", "{x}", "x,y", "7#9", "b5", "#11", "]", "o7", "R", "C", "}", ",", "♭9", "é", "13", "007", "１", "٢x", "m৩", "no5", "no3", "n", "nat"}
 
 type ProgOpts struct {
 	MaxItems   int
